@@ -446,26 +446,48 @@ theorem program_effects (C : Ctx) (fuel : Nat) :
   ⟨fun body kw st st' v h => runFunction_effects C fuel body kw st st' v h,
    fun s c c' o h => exec_effects C fuel s c c' o h, fun e c c' v h => eval_effects C fuel e c c' v h⟩
 
-/-- **program execution meets the mechanism**: let the `Spec` state `st` correspond to the mechanism state `(s, d)`
-    (`RefinesA`: both initial, or both after any history of the domain).  A program run from `st` that ends normally in
-    `st'` reaches `st'` through a history `es` of successful state operations, and — if the values `es` assigns to a
-    class's own identifying id attribute are non-negative integers (the mechanism model keeps ids as naturals, `attr_writes`)
-    — there is a history `ops` of
-    MECHANISM operations (`Meta.new` / `relate` / `unrelate` / `delete`, `setattr`) of the domain after which the
-    mechanism state corresponds to `st'`: pools in creation order, both directions of every association in link order,
-    attribute values and the id counter of the mechanism are what the program's final `Spec` state says.
+/-- **a history of Spec operations is the image of a mechanism history** (the strong form: for EVERY history `es`, nothing
+    hidden): let the `Spec` state `st` correspond to the mechanism state `(s, d)` (`RefinesA`: both initial, or both after
+    any history of the domain).  Every list `es` of successful state operations from `st` to `st'` whose writes to a
+    class's own identifying id attribute carry non-negative integers (`IdWritesNonneg`; the mechanism model keeps ids
+    as naturals) IS the image of a history `ops` of MECHANISM operations (`Meta.new` / `relate` / `unrelate` / `delete`,
+    `setattr`) of the refinement's domain — `specRunA … ops`, Spec run operation by operation on the named instances,
+    ends in that very `st'` — and the mechanism state after `ops` corresponds to `st'`: pools in creation order, both
+    directions of every association in link order, attribute values, the id counter.
     (`Closed`: instances live only in classes the context declares — true initially, kept by every operation.) -/
+theorem history_refines {decl : Nat → List AttrDecl} {at_ : Pyx.Meta.Attrs} {sch : Pyx.Meta.Schema} {d : MDict}
+    (hk : Function.Injective kname) (kinds : List Nat) (hok : SchemaOk sch)
+    (hD : ∀ k ∈ kinds, DeclOk decl at_ sch k)
+    (R : RefinesA kname decl at_ sch ι s d st) (A : AllInv sch s) (hc : Closed kname kinds st)
+    (es : List Eff) (st' : State) (hes : applyEffs (ctxOfA kname decl kinds sch) es st = .ok st')
+    (hid : ∀ e ∈ es, IdWritesNonneg kname at_ e) :
+    ∃ ops, DomA decl at_ sch kinds s d ops ∧
+      (specRunA kname decl at_ (ctxOfA kname decl kinds sch) sch ops s d ι st).2 = st' ∧
+      RefinesA kname decl at_ sch (specRunA kname decl at_ (ctxOfA kname decl kinds sch) sch ops s d ι st).1
+        (mRunA decl at_ sch ops s d).1 (mRunA decl at_ sch ops s d).2 st' ∧
+      Closed kname kinds st' :=
+  effs_refine hk kinds hok hD es ι s d st st' R A hc hes hid
+
+/-- **program execution meets the mechanism** (nothing hidden in the premise): a program whose attribute assignments —
+    at any depth of blocks, ifs, loops — never name a class's own identifying attribute (`StmtOk`, a condition on the
+    program TEXT), run from a `Spec` state that corresponds to a mechanism state and ending normally in `st'`, reaches
+    `st'` through a history `es` of successful state operations that is the image of a history `ops` of mechanism
+    operations of the domain, and the mechanism state after `ops` corresponds to `st'`.  (Programs that do assign id
+    attributes: `program_effects` yields their history, `history_refines` applies to it when the assigned values are
+    non-negative.) -/
 theorem program_refines {decl : Nat → List AttrDecl} {at_ : Pyx.Meta.Attrs} {sch : Pyx.Meta.Schema} {d : MDict}
     (hk : Function.Injective kname) (kinds : List Nat) (hok : SchemaOk sch)
     (hD : ∀ k ∈ kinds, DeclOk decl at_ sch k)
     (R : RefinesA kname decl at_ sch ι s d st) (A : AllInv sch s) (hc : Closed kname kinds st)
-    (fuel : Nat) (body : Block) (kw : List (String × Val)) (v : Val) (st' : State)
+    (fuel : Nat) (body : Block) (hbody : ∀ s ∈ body, StmtOk (fun name => ∀ k, at_.idName k ≠ some name) s)
+    (kw : List (String × Val)) (v : Val) (st' : State)
     (h : runFunction (ctxOfA kname decl kinds sch) fuel body kw st = some (.ok (v, st'))) :
-    ∃ es, applyEffs (ctxOfA kname decl kinds sch) es st = .ok st' ∧
-      ((∀ e ∈ es, IdWritesNonneg kname at_ e) →
-        ∃ ops ι', DomA decl at_ sch kinds s d ops ∧
-          RefinesA kname decl at_ sch ι' (mRunA decl at_ sch ops s d).1 (mRunA decl at_ sch ops s d).2 st') :=
-  Pyx.Interp.program_refines hk kinds hok hD R A hc fuel body kw v st' h
+    ∃ es ops, applyEffs (ctxOfA kname decl kinds sch) es st = .ok st' ∧
+      DomA decl at_ sch kinds s d ops ∧
+      (specRunA kname decl at_ (ctxOfA kname decl kinds sch) sch ops s d ι st).2 = st' ∧
+      RefinesA kname decl at_ sch (specRunA kname decl at_ (ctxOfA kname decl kinds sch) sch ops s d ι st).1
+        (mRunA decl at_ sch ops s d).1 (mRunA decl at_ sch ops s d).2 st' :=
+  program_refines_syntactic hk kinds hok hD R A hc fuel body hbody kw v st' h
 
 /-- for a model without identifying id attributes the condition is void; and the initial states qualify -/
 theorem program_refines_noid {decl : Nat → List AttrDecl} {at_ : Pyx.Meta.Attrs} {sch : Pyx.Meta.Schema} {d : MDict}
@@ -597,24 +619,22 @@ example : Pyx.Meta.SchemaOk schS ∧ Dom' [0, 1] schS Pyx.Meta.init histS := sch
 example : Function.Injective knameS := knameS_inj
 example : DeclOk declS atS schS 0 ∧ DeclOk declS atS schS 1 := declS_ok
 
-/-- program execution meets the mechanism, non-vacuity: on the context of `schS` / `declS` (classes `K`, `KK`) the program
+/-- program execution meets the mechanism, non-vacuity — EVERY premise discharged: on the context of `schS` / `declS`
+    (classes `K`, `KK`, id attribute `ID`) the program
     `create object instance a of K; create object instance b of KK; create object instance c of KK; relate a to b across R2;
-     a.n = 5; c.ID = 77; unrelate a from b across R2; relate a to c across R2; delete object instance b; return a.n;`
-    run from the initial state ends normally (value 5), so `program_refines` applies with the initial states: its final
-    state is reached through a history of state operations and — id attributes being assigned non-negative integers only — corresponds to
-    the mechanism state after a history of mechanism operations -/
+     a.n = 5; unrelate a from b across R2; relate a to c across R2; delete object instance b; return a.n;`
+    assigns no id attribute (`StmtOk`, proved statement by statement), run from the initial state it ends normally
+    (value 5), so `program_refines` yields — unconditionally — the mechanism history and the correspondence -/
 def progS : Block := [
   .create (some "a") "K", .create (some "b") "KK", .create (some "c") "KK",
-  .relate "a" "b" "R2" "", .assignField (.var "a") "n" (.int 5), .assignField (.var "c") "ID" (.int 77),
+  .relate "a" "b" "R2" "", .assignField (.var "a") "n" (.int 5),
   .unrelate "a" "b" "R2" "", .relate "a" "c" "R2" "", .delete "b",
   .ret (some (.field (.var "a") "n"))]
 
-example : ∃ st' es, runFunction (ctxOfA knameS declS [0, 1] schS) 12 progS [] initState = some (.ok (.int 5, st')) ∧
-    applyEffs (ctxOfA knameS declS [0, 1] schS) es initState = .ok st' ∧
-    ((∀ e ∈ es, IdWritesNonneg knameS atS e) →
-      ∃ ops ι', DomA declS atS schS [0, 1] Pyx.Meta.init ⟨fun _ _ => .none⟩ ops ∧
-        RefinesA knameS declS atS schS ι' (mRunA declS atS schS ops Pyx.Meta.init ⟨fun _ _ => .none⟩).1
-          (mRunA declS atS schS ops Pyx.Meta.init ⟨fun _ _ => .none⟩).2 st') := by
+example : ∃ st' ops ι', runFunction (ctxOfA knameS declS [0, 1] schS) 12 progS [] initState = some (.ok (.int 5, st')) ∧
+    DomA declS atS schS [0, 1] Pyx.Meta.init ⟨fun _ _ => .none⟩ ops ∧
+    RefinesA knameS declS atS schS ι' (mRunA declS atS schS ops Pyx.Meta.init ⟨fun _ _ => .none⟩).1
+      (mRunA declS atS schS ops Pyx.Meta.init ⟨fun _ _ => .none⟩).2 st' := by
   have ok_of_valOf : ∀ {r : Option (Except Err (Val × State))} {v : Val}, valOf r = some v →
       ∃ st', r = some (.ok (v, st')) := by
     intro r v h
@@ -624,15 +644,54 @@ example : ∃ st' es, runFunction (ctxOfA knameS declS [0, 1] schS) 12 progS [] 
     · cases h
   obtain ⟨st', h⟩ := ok_of_valOf (r := runFunction (ctxOfA knameS declS [0, 1] schS) 12 progS [] initState)
     (v := .int 5) (by decide +kernel)
-  have hD : ∀ k ∈ [0, 1], DeclOk declS atS schS k := by
-    intro k hk
-    simp only [List.mem_cons, List.not_mem_nil, or_false] at hk
-    rcases hk with rfl | rfl
-    · exact declS_ok.1
-    · exact declS_ok.2
-  obtain ⟨es, h1, h2⟩ := program_refines knameS_inj [0, 1] schS_ok.1 hD
+  have hbody : ∀ s ∈ progS, StmtOk (fun name => ∀ k, atS.idName k ≠ some name) s := by
+    intro s hs
+    simp only [progS, List.mem_cons, List.not_mem_nil, or_false] at hs
+    rcases hs with rfl | rfl | rfl | rfl | rfl | rfl | rfl | rfl | rfl
+    all_goals first
+      | exact StmtOk.create _ _
+      | exact StmtOk.relate _ _ _ _
+      | exact StmtOk.unrelate _ _ _ _
+      | exact StmtOk.delete _
+      | exact StmtOk.ret _
+      | exact StmtOk.assignField _ _ _ (fun k => by simp [atS])
+  obtain ⟨es, ops, _, hdom, _, R'⟩ := program_refines knameS_inj [0, 1] schS_ok.1 declS_all
     (refinesA_init knameS declS atS schS (fun _ => ⟨"", 0⟩) ⟨fun _ _ => .none⟩) (Pyx.Meta.allInv_init schS)
-    (closed_init [0, 1]) 12 progS [] (.int 5) st' h
-  exact ⟨st', es, h, h1, h2⟩
+    (closed_init [0, 1]) 12 progS hbody [] (.int 5) st' h
+  exact ⟨st', ops, _, h, hdom, R'⟩
+
+/-- `history_refines`, every premise discharged, WITH a write to an id attribute: the explicit history
+    new K, new KK, `KK#0.ID = 77`, relate, `K#0.n = 5`, unrelate succeeds from the initial state; its only id write
+    carries 77 ≥ 0; so it is the image of a mechanism history and the end states correspond -/
+def histE : List Eff := [
+  .new "K", .new "KK", .set ⟨"KK", 0⟩ "ID" (.int 77), .relate ⟨"K", 0⟩ ⟨"KK", 0⟩ "R2" "",
+  .set ⟨"K", 0⟩ "n" (.int 5), .unrelate ⟨"K", 0⟩ ⟨"KK", 0⟩ "R2" ""]
+
+example : ∃ st' ops, applyEffs (ctxOfA knameS declS [0, 1] schS) histE initState = .ok st' ∧
+    DomA declS atS schS [0, 1] Pyx.Meta.init ⟨fun _ _ => .none⟩ ops ∧
+    RefinesA knameS declS atS schS
+      (specRunA knameS declS atS (ctxOfA knameS declS [0, 1] schS) schS ops Pyx.Meta.init ⟨fun _ _ => .none⟩ (fun _ => ⟨"", 0⟩) initState).1
+      (mRunA declS atS schS ops Pyx.Meta.init ⟨fun _ _ => .none⟩).1
+      (mRunA declS atS schS ops Pyx.Meta.init ⟨fun _ _ => .none⟩).2 st' := by
+  have hok : ∃ st', applyEffs (ctxOfA knameS declS [0, 1] schS) histE initState = .ok st' := by
+    have : (applyEffs (ctxOfA knameS declS [0, 1] schS) histE initState).toBool = true := by decide +kernel
+    cases h : applyEffs (ctxOfA knameS declS [0, 1] schS) histE initState with
+    | ok st' => exact ⟨st', rfl⟩
+    | error e => rw [h] at this; cases this
+  obtain ⟨st', hes⟩ := hok
+  have hid : ∀ e ∈ histE, IdWritesNonneg knameS atS e := by
+    intro e he
+    simp only [histE, List.mem_cons, List.not_mem_nil, or_false] at he
+    rcases he with rfl | rfl | rfl | rfl | rfl | rfl
+    · trivial
+    · trivial
+    · intro k _ _; exact ⟨77, rfl, by decide⟩
+    · trivial
+    · intro k _ hidn; simp [atS] at hidn
+    · trivial
+  obtain ⟨ops, hdom, _, R', _⟩ := history_refines knameS_inj [0, 1] schS_ok.1 declS_all
+    (refinesA_init knameS declS atS schS (fun _ => ⟨"", 0⟩) ⟨fun _ _ => .none⟩) (Pyx.Meta.allInv_init schS)
+    (closed_init [0, 1]) histE st' hes hid
+  exact ⟨st', ops, hes, hdom, R'⟩
 
 end PyxProps.C04
